@@ -165,11 +165,20 @@ def check_classify_strict(ctx, gc, model, otaxa, gt, dists, genomes, perm, w):
 	exp = expected_strict(model, gt, dists)
 	g2 = [genomes[j] for j in perm]
 	d2 = np.array([dists[j] for j in perm], dtype='f4')
+	# the interpreter's warning filters are the host program's business (python -W ignore / -W error, PYTHONWARNINGS, a script that
+	# silenced warnings): the classification result, its warnings list included, does not depend on them
+	import warnings as _warnings
+	fstate = ('as-is', 'ignore', 'error', 'as-is', 'once')[(ctx.evals + len(perm)) % 5]
 	try:
-		res = gc.classify(g2, d2, strict=True)
+		with _warnings.catch_warnings():
+			if fstate != 'as-is':
+				_warnings.simplefilter(fstate)
+			res = gc.classify(g2, d2, strict=True)
 	except Exception as e:
-		ctx.violation('classify-raises', f'classify(strict=True) raised {type(e).__name__}: {e}', w)
+		ctx.violation('classify-raises', f'classify(strict=True) raised {type(e).__name__}: {e} (warning filters: {fstate})', dict(w, warning_filters=fstate))
 		return None
+	ctx.count(f'strict_calls_under_warning_filters:{fstate}')
+	w = dict(w, warning_filters=fstate)
 	ctx.evals += 1
 	pi = None if res.predicted_taxon is None else otaxa.index(res.predicted_taxon)
 	if pi != exp['pred']:
@@ -280,7 +289,7 @@ def run_shard(sh, ctx):
 
 def finalize(merged, tier, seed, inconclusive):
 	c = merged['counters']
-	for n in ['forests', 'matched_sets_with_conflict_plus_descendant', 'classify_orders', 'worlds_without_common_ancestor', 'matched_taxa:3+', 'e2e_commands']:
+	for n in ['forests', 'matched_sets_with_conflict_plus_descendant', 'classify_orders', 'worlds_without_common_ancestor', 'matched_taxa:3+', 'e2e_commands', 'strict_calls_under_warning_filters:ignore', 'strict_calls_under_warning_filters:error']:
 		if c.get(n, 0) == 0:
 			inconclusive.append(f'class never observed: {n}')
 	return dict(exhaustive=True, orders_that_disagree=int(c.get('worlds_with_order_dependent_prediction', 0)),
